@@ -377,8 +377,8 @@ def evaluate__round_half_to_even(self: XPathFunction, context: ta.ContextType = 
         return []
     elif isinstance(item, float) and (math.isnan(item) or math.isinf(item)):
         return item
-    elif not isinstance(item, (float, int, Decimal)):
-        code = 'XPTY0004' if isinstance(item, str) else 'FORG0006'
+    elif not isinstance(item, (float, int, Decimal)) or isinstance(item, bool):
+        code = 'XPTY0004' if isinstance(item, (str, bool)) else 'FORG0006'
         raise self.error(code, "invalid argument type {!r}".format(type(item)))
 
     precision = 0 if len(self) < 2 else self[1].evaluate(context)
@@ -508,6 +508,9 @@ def evaluate__max_min_functions(self: XPathFunction, context: ta.ContextType = N
         elif any(isinstance(x, str) for x in values):
             if any(isinstance(x, ArithmeticProxy) for x in values):
                 raise self.error('FORG0006', "cannot compare strings with numeric data")
+        elif any(isinstance(x, bool) for x in values) and \
+                not all(isinstance(x, bool) for x in values):
+            raise self.error('FORG0006', "cannot compare xs:boolean with other types")
         elif all(isinstance(x, (Decimal, int)) for x in values):
             return aggregate_func(
                 cast(list[str], values)
@@ -678,7 +681,7 @@ def select__remove(self: XPathFunction, context: ta.ContextType = None) -> Itera
         context = self.context
 
     position = self.get_argument(context, 1)
-    if not isinstance(position, int):
+    if not isinstance(position, int) or isinstance(position, bool):
         raise self.error('XPTY0004', 'an xs:integer required')
 
     for pos, result in enumerate(self[0].select(context), start=1):
